@@ -5,13 +5,15 @@ from props import scen
 
 # which monitors / projection checks speak for which property
 ATTR = {
-    "C06": {"mon": ("C06_",), "inv": ("Missing_hstart", "Missing_hend")},
-    "C07": {"mon": ("C07_",), "inv": ("Missing_hstart", "Missing_hend", "Missing_eof", "Missing_onclose", "Missing_stopret", "Missing_runret")},
-    "C08": {"mon": ("C08_",), "inv": ("Missing_eof", "Missing_onclose", "Extra_onclose", "Extra_eof")},
-    "C09": {"mon": ("C09_",), "inv": ()},
+    "C06": {"mon": ("C06_",), "inv": ("Missing_hstart", "Missing_hend", "Late_hstart", "Late_hend")},
+    "C07": {"mon": ("C07_",), "inv": ("Missing_hstart", "Missing_hend", "Missing_eof", "Missing_onclose", "Missing_stopret", "Missing_runret", "Extra_runret", "Late_hstart", "Late_hend")},
+    "C08": {"mon": ("C08_",), "inv": ("Missing_eof", "Missing_onclose", "Extra_onclose", "Extra_eof", "Late_eof", "Late_onclose")},
+    "C09": {"mon": ("C09_", "C08_OnCloseOncePerConnection"), "inv": ("Missing_onclose", "Extra_onclose")},
     "C10": {"mon": ("C10_", "C08_SocketClosedOnlyAfterHandlersReturned"), "inv": ("Extra_hstart", "Extra_hend", "Missing_hunbind", "Extra_hunbind", "Missing_eof")},
-    "C11": {"mon": ("C11_",), "inv": ("Missing_stopret", "Missing_runret", "Extra_runret")},
+    "C11": {"mon": ("C11_",), "inv": ("Missing_stopret", "Missing_runret", "Extra_runret", "Late_stopret", "Late_runret")},
     "C12": {"mon": ("C12_",), "inv": ("Missing_stopret",)},
+    "C13": {"mon": ("C13_",), "inv": ("EveryWriteArrives", "Missing_hstart", "Missing_hend", "Late_hstart", "Late_hend", "Extra_hstart")},
+    "C18": {"mon": ("C18_", "C07_"), "inv": ("Extra_hstart", "Extra_hend", "Missing_hstart", "Missing_hend", "Missing_eof", "Late_eof", "Late_hstart")},
     "C17": {"mon": ("C17_",), "inv": ("Missing_ready", "Extra_ready")},
 }
 
@@ -23,11 +25,27 @@ FAMILIES = {
                      cfgs=[{"unbind_route": "1", "coalesce": "1"}, {"unbind_route": "0", "coalesce": "1"}, {"unbind_route": "1"}],
                      must=lambda b: sum(1 for e in b if e["a"] == "send") >= 2),
     # Stop against idle / half-a-frame / not-reading / busy connections
-    "stop": dict(consts={"Conns": '{"c1", "c2"}', "MaxReq": "2", "FrameKinds": '{"op", "partial"}', "AllowStopReading": "TRUE"}, depth=6,
+    "stop": dict(consts={"Conns": '{"c1", "c2"}', "MaxReq": "2", "FrameKinds": '{"op", "partial", "unbind"}', "AllowStopReading": "TRUE"}, depth=6,
                  cfgs=[{"unbind_route": "0"}], must=lambda b: any(e["a"] == "stop" for e in b)),
-    # handler panics (recovered), with a bystander connection
-    "panic": dict(consts={"Conns": '{"c1", "c2"}', "MaxReq": "2", "FrameKinds": '{"op", "unbind"}'}, depth=6, panic=True,
-                  cfgs=[{"unbind_route": "1"}], must=lambda b: any(e["a"] == "panic" for e in b)),
+    # two overlapping Stop calls against a connection whose handler is held
+    "stop2": dict(consts={"Conns": '{"c1"}', "MaxReq": "2", "Stoppers": '{"s1", "s2"}', "FrameKinds": '{"op"}'}, depth=7,
+                  cfgs=[{"unbind_route": "0"}], must=lambda b: sum(1 for e in b if e["a"] == "stop") == 2),
+    # StartTLS: one connection, upgrade with the handler delayed before / after its reply, requests (held and not) after it
+    "starttls": dict(consts={"Conns": '{"c1"}', "MaxReq": "3", "FrameKinds": '{"starttls", "op"}'}, depth=6,
+                     cfgs=[{"unbind_route": "0", "tls": "starttls"}, {"unbind_route": "0", "tls": "starttls", "tls_delay_after": "1"}],
+                     must=lambda b: starttls_ok(b)),
+    # TLS listener (server authentication / client certificate required): every client kind, with a bystander
+    "tls-server": dict(consts={"Conns": '{"c1", "c2"}', "MaxReq": "1", "FrameKinds": '{"op"}', "TLSMode": '"server"'}, depth=5,
+                       cfgs=[{"unbind_route": "0", "tls": "tls"}], must=lambda b: any(e["a"] == "send" for e in b)),
+    "tls-mtls": dict(consts={"Conns": '{"c1", "c2"}', "MaxReq": "1", "FrameKinds": '{"op"}', "TLSMode": '"mtls"'}, depth=5,
+                     cfgs=[{"unbind_route": "0", "tls": "mtls"}], must=lambda b: any(e["a"] == "send" for e in b)),
+    # handler panics (recovered) on per-request goroutines and inline (StartTLS, unbind route), with a bystander connection
+    "panic": dict(consts={"Conns": '{"c1", "c2"}', "MaxReq": "2", "FrameKinds": '{"op", "unbind", "starttls"}'}, depth=6, panic=True,
+                  cfgs=[{"unbind_route": "1"}], must=lambda b: any(e["a"] == "panic" or e["s"] == "panic" for e in b)),
+    # other faults: resets, half frames, clients that stop reading, descriptor exhaustion at accept time; bystander connection
+    "fault": dict(consts={"Conns": '{"c1", "c2"}', "MaxReq": "2", "FrameKinds": '{"op", "partial", "bad"}', "AllowStopReading": "TRUE",
+                          "AllowAcceptFault": "TRUE"}, depth=6, cfgs=[{"unbind_route": "0", "reset": "1"}, {"unbind_route": "0"}],
+                  must=lambda b: any(e["a"] in ("emfile", "stopreading", "close") or e["k"] in ("partial", "bad") for e in b)),
 }
 
 DESIGN = {
@@ -75,6 +93,21 @@ def attribute(pid, res, rows, scenarios):
     return out
 
 
+def starttls_ok(b):
+    """exactly one StartTLS, sent on an otherwise idle connection (no request in flight - RFC 4511 4.14.1 - and nothing sent
+    until its handler has returned: a conforming client waits for the response before it starts the handshake)"""
+    env = [e for e in b if e["a"] in scen.ENV]
+    idx = [k for k, e in enumerate(env) if e["a"] == "send" and e["k"] == "starttls"]
+    if len(idx) != 1:
+        return False
+    k = idx[0]
+    if any(e["a"] == "send" and e["c"] == env[k]["c"] for e in env[:k]):
+        return False
+    if env[k]["hold"]:
+        return k + 1 < len(env) and env[k + 1]["a"] == "release" and env[k + 1]["c"] == env[k]["c"] and env[k + 1]["i"] == env[k]["i"]
+    return True
+
+
 def deep_script(n, tail=True, release=True):
     """n pipelined requests whose handlers all block, then an Unbind and one more request; then the handlers are released"""
     sc = [{"a": "run"}, {"a": "dial", "c": "c1"}]
@@ -112,6 +145,69 @@ def scripted_family(run, fam, quick):
         scripts = [deep_script(n) for n in ns] + [deep_script(ns[0], tail=False)]
         consts = {"Conns": '{"c1"}', "MaxReq": str(max(ns) + 2), "FrameKinds": '{"op", "unbind"}'}
         cfgs = [{"unbind_route": "1", "coalesce": "1"}, {"unbind_route": "0", "coalesce": "1"}, {"unbind_route": "1"}]
+    elif fam == "stopstates":
+        # the connection states C11 names, each followed by Stop (and a second, overlapping Stop)
+        R, D = {"a": "run"}, lambda c, k="": {"a": "dial", "c": c, "k": k}
+        S = lambda c, k, hold=False: {"a": "send", "c": c, "k": k, "hold": hold}
+        stop1, stop2 = {"a": "stop", "s": "s1"}, {"a": "stop", "s": "s2"}
+        plain = [
+            [R, D("c1"), stop1],
+            [R, D("c1"), S("c1", "partial"), stop1, stop2],
+            [R, D("c1"), {"a": "stopreading", "c": "c1"}, S("c1", "op"), S("c1", "op"), stop1],
+            [R, D("c1"), {"a": "stopreading", "c": "c1"}, S("c1", "op"), S("c1", "unbind"), stop1],
+            [R, D("c1"), D("c2"), {"a": "stopreading", "c": "c2"}, S("c2", "op"), S("c1", "partial"), stop1, stop2],
+            [R, D("c1")] + [S("c1", "op") for _ in range(40)] + [stop1],
+            [R, D("c1"), S("c1", "op", True), stop1, stop2, {"a": "release", "c": "c1", "i": 1}],
+        ]
+        consts = {"Conns": '{"c1", "c2"}', "MaxReq": "41", "Stoppers": '{"s1", "s2"}', "FrameKinds": '{"op", "partial", "unbind", "starttls"}'}
+        out = [(b, {"unbind_route": "0"}) for b in scen.scripted(run, plain, consts)]
+        out += [(out[5][0], {"unbind_route": "0", "coalesce": "1"})]
+        # StartTLS upgrades interrupted by Stop: handler delayed before its reply; client that never starts the handshake
+        stls = [
+            [R, D("c1"), S("c1", "starttls", True), stop1, {"a": "release", "c": "c1", "i": 1}],
+            [R, D("c1", "silent"), S("c1", "starttls"), stop1],
+            [R, D("c1"), S("c1", "starttls"), S("c1", "op", True), stop1, {"a": "release", "c": "c1", "i": 2}],
+        ]
+        out += [(b, {"unbind_route": "0", "tls": "starttls"}) for b in scen.scripted(run, stls, dict(consts, AllowSilent="TRUE"))]
+        # TLS listener: handshake pending / failed, then Stop
+        for mode, tm in (("tls", '"server"'), ("mtls", '"mtls"')):
+            scripts = [[R, D("c1", k), stop1] for k in ("silent", "valid", "plaintext", "garbage", "nocert", "wrongca")]
+            scripts += [[R, D("c1", "silent"), D("c2", "valid"), S("c2", "op", True), stop1, {"a": "release", "c": "c2", "i": 1}]]
+            out += [(b, {"unbind_route": "0", "tls": mode}) for b in scen.scripted(run, scripts, dict(consts, TLSMode=tm))]
+        return out
+    elif fam == "starttls2":
+        R, D = {"a": "run"}, lambda c: {"a": "dial", "c": c}
+        S = lambda c, k, hold=False: {"a": "send", "c": c, "k": k, "hold": hold}
+        rel = lambda c, i: {"a": "release", "c": c, "i": i}
+        scripts = [
+            # two sessions upgrading in parallel (handlers delayed, released in the opposite order), then traffic inside both tunnels
+            [R, D("c1"), D("c2"), S("c1", "starttls", True), S("c2", "starttls", True), rel("c2", 1), rel("c1", 1),
+             S("c1", "op", True), S("c1", "op"), S("c2", "op"), S("c1", "op", True), rel("c1", 4), rel("c1", 2), S("c1", "unbind"), S("c2", "op"), {"a": "close", "c": "c2"}],
+            # upgrade, a pipeline of held requests inside the tunnel, Stop
+            [R, D("c1"), S("c1", "starttls")] + [S("c1", "op", True) for _ in range(12)] + [rel("c1", i) for i in range(13, 1, -1)] + [{"a": "stop", "s": "s1"}],
+            [R, D("c1"), D("c2"), S("c2", "op", True), S("c1", "starttls"), S("c1", "op"), rel("c2", 1), S("c2", "starttls"), S("c2", "op"), S("c1", "op")],
+        ]
+        consts = {"Conns": '{"c1", "c2"}', "MaxReq": "14", "FrameKinds": '{"starttls", "op", "unbind"}'}
+        behs = scen.scripted(run, scripts, consts)
+        out = []
+        for b in behs:
+            out.append((b, {"unbind_route": "1", "tls": "starttls"}))
+            out.append((b, {"unbind_route": "0", "tls": "starttls", "tls_delay_after": "1"}))
+        return out
+    elif fam == "ready":
+        ok_addrs = ["", "ipv6", "ipv6-bare", "host", "port-only"]
+        bad_addrs = ["in-use", "bad-noport", "bad-ipv4", "bad-ipv6", "bad-bracket", "bad-emptyport", "bad-brackets-empty", "bad-brackets-host"]
+        consts = {"Conns": '{"c1"}', "MaxReq": "1", "FrameKinds": '{"op"}'}
+        good = scen.scripted(run, [[{"a": "run"}, {"a": "dial", "c": "c1"}, {"a": "send", "c": "c1", "k": "op"}, {"a": "stop", "s": "s1"}]], consts)
+        failing = scen.scripted(run, [[{"a": "run"}]], dict(consts, ListenFails="TRUE"))
+        out = []
+        for a in ok_addrs:
+            for tls in ("", "tls"):
+                out.append((good[0], {"addr": a, "ready_dial": "1", "tls": tls, "unbind_route": "0"}))
+        for a in bad_addrs:
+            for tls in ("", "tls"):
+                out.append((failing[0], {"addr": a, "ready_dial": "1", "tls": tls, "unbind_route": "0", "expect_run_error": "1"}))
+        return out
     elif fam == "manyconns":
         ms = [6, 9] if quick else [6, 9, 12, 12]
         scripts = [conns_script(m, rnd) for m in ms]
@@ -123,7 +219,7 @@ def scripted_family(run, fam, quick):
     return [(b, dict(cfgs[n % len(cfgs)])) for n, b in enumerate(behs)]
 
 
-SCRIPTED = {"deep", "manyconns"}
+SCRIPTED = {"deep", "manyconns", "ready", "stopstates", "starttls2"}
 
 
 def run_families(run, names, cap):
